@@ -3,13 +3,16 @@
    redb's own guarantee -- a committed write transaction is atomic and durable -- is trusted.
    The table follows the store request by request (C18_table_tracks_store: set / cset / delete / pdelete histories,
    any keys, accepted or refused; C18_table_tracks_any (Proofs/RedbSession.v): histories of client requests of every
-   kind except import, sessions starting and ending with their grave goods and last wills included).  PARTIAL: the
-   registration tables, imports and the load are in the executable model and compared with the real server, not
-   proved; CAS versions are known finding F13 (row_of). *)
+   kind except import, sessions starting and ending with their grave goods and last wills included); so do the two
+   registration tables (C18_all_tables_follow_the_store, Proofs/RedbRegs.v: the grave-goods / last-will entry of every
+   client is what its registration key holds, after registering, re-registering, withdrawing by delete or pattern delete
+   -- F28 --, burials that reach other clients' registrations -- F4 --, and session ends).  PARTIAL: imports and the
+   load are in the executable model and compared with the real server, not proved; CAS versions are known finding F13
+   (row_of). *)
 From Coq Require Import List.
 Import ListNotations.
 From WB Require Import Base.Str Base.Json Model.Key Model.Consts Model.Store Model.Entry Model.Core Model.Persist Model.Redb Spec.MapSpec
-  Proofs.RedbFacts Proofs.CoreFacts Proofs.LenFacts Proofs.StreamProof Proofs.RedbTrack Proofs.RedbSession.
+  Proofs.RedbFacts Proofs.CoreFacts Proofs.LenFacts Proofs.StreamProof Proofs.SessionEnd Proofs.RedbTrack Proofs.RedbSession Proofs.RedbRegs.
 
 (* every cut the writer can produce: whatever the scheduler lets each wake-up find in the channel, the disk holds the
    result of a prefix of the queued single-key changes, in order; the rest is still queued, in order *)
@@ -65,6 +68,42 @@ Theorem C18_session_end_tracks :
     Inv s' /\ tracks s' (apply_all t (actions_of s (ODisconnected c))) /\ abs s' [s_SYS] = None.
 Proof. exact track_session_end. Qed.
 Print Assumptions C18_session_end_tracks.
+
+(* all three tables.  [RegTracks s t]: for every client id 1..255 the entry of the grave-goods table is what the key
+   $SYS/clients/<id>/graveGoods decodes to (none if the key is absent or null), the same for the last wills.
+   [reg_hist]: writes and deletes come from clients 1..255 (the id space of the model's client_str), no import, and at a
+   session end the ending client's last will does not write under $SYS/ (a will that re-creates its own registration
+   key leaves a registration in the store which no table entry backs: the tables are cleared after the will) *)
+Theorem C18_all_tables_follow_the_store :
+  forall os, reg_hist init os -> no_crash_run init os ->
+    tracks (final init os) (apply_all t_empty (any_actions init os)) /\
+    RegTracks (final init os) (apply_all t_empty (any_actions init os)).
+Proof. exact tables_track_any_init. Qed.
+Print Assumptions C18_all_tables_follow_the_store.
+
+Theorem C18_all_tables_follow_the_store_from :
+  forall os s t, Inv s -> LenInv s -> tracks s t -> RegTracks s t -> abs s [s_SYS] = None -> reg_hist s os -> no_crash_run s os ->
+    Inv (final s os) /\ tracks (final s os) (apply_all t (any_actions s os)) /\ RegTracks (final s os) (apply_all t (any_actions s os)).
+Proof. exact tables_track_any. Qed.
+Print Assumptions C18_all_tables_follow_the_store_from.
+
+(* one request: whatever it is (except import), accepted or refused *)
+Theorem C18_registration_tables_step :
+  forall s t o, Inv s -> LenInv s -> RegTracks s t -> reg_op s o -> o_res (snd (step s o)) <> RCrash ->
+    RegTracks (fst (step s o)) (apply_all t (actions_of s o)).
+Proof. exact reg_track_step. Qed.
+Print Assumptions C18_registration_tables_step.
+
+(* the hypotheses hold along a history that registers, withdraws (F28), buries another client's registration through a
+   wildcard-first pattern (F4) and ends a session; and the tables say what the theorem says *)
+Example C18_registrations_nonvacuous :
+  (reg_hist init demo_hist /\ no_crash_run init demo_hist) /\
+  let T := apply_all t_empty (any_actions init demo_hist) in
+  let T4 := apply_all t_empty (any_actions init (firstn 4 demo_hist)) in
+  c_get 1 (t_gg T4) = Some [[120;47;35]%N] /\ c_get 1 (t_lw T4) = Some [([119]%N, JNum [49]%N)] /\
+  c_get 1 (t_gg T) = None /\ c_get 1 (t_lw T) = None /\ c_get 2 (t_gg T) = None /\
+  gg_store (final init demo_hist) 1 = None /\ lw_store (final init demo_hist) 1 = None.
+Proof. split; [exact demo_hist_hyps|exact demo_hist_ok]. Qed.
 
 Example C18_sessions_nonvacuous :
   let gg1 := topic [s_SYS; s_clients; client_str 1; s_graveGoods] in
